@@ -2,6 +2,8 @@
 package props
 
 import (
+	"strconv"
+	"sync"
 	"fmt"
 	"sort"
 	"strings"
@@ -364,6 +366,29 @@ func churnCount(t *rapid.T) int {
 		return rapid.IntRange(62, 68).Draw(t, "churn")
 	}
 	return 130
+}
+
+var (
+	tailOnce   sync.Once
+	tailA      []string // names whose table hash ends in ...11111 (last bucket of a 32-bucket table)
+	tailB      []string // names whose table hash ends in ...01111 (the bucket before it; same bucket as tailA in a 16-bucket table)
+)
+
+// tailPair draws two names that collide in the 16-bucket table and sit in the last two buckets of the
+// 32-bucket table (the table index is the bit-reversed low end of the hash; c17Hash mirrors the hash).
+func tailPair(t *rapid.T) (string, string) {
+	tailOnce.Do(func() {
+		for i := 0; i < 6000 && (len(tailA) < 12 || len(tailB) < 12); i++ {
+			n := "w" + strconv.Itoa(i)
+			switch c17Hash(n) & 31 {
+			case 31:
+				tailA = append(tailA, n)
+			case 15:
+				tailB = append(tailB, n)
+			}
+		}
+	})
+	return pick(t, "tailA", tailA...), pick(t, "tailB", tailB...)
 }
 
 // afterRetype draws one step with mk and first turns the key it names into a value of another type (with or
